@@ -7,6 +7,8 @@ CONSTANTS
   Observe = TRUE
   ObserveFrom = 2
   TrackDist = TRUE
+  TrackOperand = FALSE
+  AdoptLists = FALSE
   CacheChecksCount = TRUE
 INVARIANT CacheFresh
 INVARIANT GraphAgrees
